@@ -421,14 +421,14 @@ PROPS["C12"] = dict(
 
 PROPS["C13"] = dict(
     lean_targets=["SJ.Props.C13", "SJ.Props.Typed", "SJ.Audit.C13"],
-    configs=dict(quick=["d"], thorough=["d", "ap", "po"]),
+    configs=dict(quick=["d", "rv"], thorough=["d", "rv", "ap", "po"]),
     gen_keys=["error.", "de.", "ser."],
     rule="reader side: 15 fixed + 150 (thorough 1500) generated/mutated documents, a reader that fails at every byte k in 0..=len "
          "with one of 5 error kinds, a random chunking schedule and interleaved Interrupted results, targets Value and IgnoredAny "
          "(modelled) and five typed targets ((i32,i32), Vec<u8>, BTreeMap<String,Vec<i64>>, Option<(String,bool)>, [();3]; "
          "spec only), each also run with a clean end of input after the same k bytes; schema-typed targets (op rfaults: fixed and "
          "random (schema, text) pairs through the universal seed, reader failing after every k, compared with the typed model run "
-         "in fault mode); stream iteration over a failing reader; "
+         "in fault mode); stream iteration over a failing reader; in raw_value builds also Box<RawValue> at top level (model: Model.IoFault.rawFault) and as Vec / map elements (spec only), so that the fault arrives while the reader holds a raw buffer; "
          "writer side: 300 (thorough 3000) serializer programs x {compact, pretty} with a writer accepting m bytes for m in "
          "0..=len+1 (sampled for long outputs) under random short-write patterns and Interrupted, recording every buffer handed "
          "to write_all. Non-trivial = k > 0 / m > 0; distinct = distinct lines.",
